@@ -61,6 +61,16 @@ class M:
         self.expect(test.values[1], f"np.isnan({q})")
         return c, skip0
 
+    def handler(self, tr):
+        """the try block around the iteration converts value / linear-algebra errors into ConvergenceError"""
+        if len(tr.handlers) != 1 or tr.finalbody or tr.orelse:
+            self.bad(tr, "expected a single except clause")
+        h = tr.handlers[0]
+        names = sorted(ast.unparse(e) for e in h.type.elts) if isinstance(h.type, ast.Tuple) else [ast.unparse(h.type)] if h.type is not None else ["BaseException"]
+        if names != ["LinAlgError", "ValueError"]:
+            self.bad(h, f"handler catches {names}, expected ValueError and LinAlgError")
+        self.raises_conv(h.body, h)
+
     def raises_conv(self, stmts, node):
         if not (stmts and isinstance(stmts[-1], ast.Raise) and isinstance(stmts[-1].exc, ast.Call) and ast.unparse(stmts[-1].exc.func) == "ConvergenceError"):
             self.bad(node, "branch does not raise ConvergenceError")
@@ -114,6 +124,7 @@ def shape(fn, kind):
     if kind != "newton_ls":
         if not (isinstance(main, ast.Try) and len(main.body) == 1 and isinstance(main.body[0], ast.For) and not main.orelse and not main.finalbody):
             m.bad(main, "expected try: for i in range(max_iters)")
+        m.handler(main)
         loop = main.body[0]
         m.expect(loop.iter, "range(max_iters)")
         st = list(loop.body)
@@ -136,6 +147,7 @@ def shape(fn, kind):
         if not (isinstance(main, ast.For) and len(main.body) == 1 and isinstance(main.body[0], ast.Try) and not main.orelse):
             m.bad(main, "expected for i in range(max_iters): try")
         m.expect(main.iter, "range(max_iters)")
+        m.handler(main.body[0])
         st = list(main.body[0].body)
         if len(st) != 11:
             m.bad(main, "loop body of unexpected length")
